@@ -186,10 +186,14 @@ pub fn c12(ctx: &mut Ctx, tier: &str, seed: u64) {
         let bases: Vec<Vec<u8>> = gen::bases(win, tier, seed).into_iter().filter(|b| !win || spec::win_complete_prefix(b)).collect();
         let f = spec::forbidden(win);
         let names: Vec<Vec<u8>> = gen::names(tier).into_iter().filter(|n| !n.is_empty() && n != b"." && n != b".." && !n.iter().any(|b| f.contains(b))).collect();
-        for b in &bases {
+        let keep = cross_keep(tier, bases.len(), names.len(), 300, 150);
+        for (bi, b) in bases.iter().enumerate() {
             let had = file_name_b(win, b).is_some();
             let oldp = parent_b(win, b);
-            for n in &names {
+            for (ni, n) in names.iter().enumerate() {
+                if !keep(bi, ni) {
+                    continue;
+                }
                 let rp = format!("setfn {} {} {}", e, hex(b), hex(n));
                 at(rp.clone());
                 let r: Vec<u8> = if win {
@@ -475,6 +479,11 @@ pub fn c16(ctx: &mut Ctx, tier: &str, seed: u64) {
     d.extend(dom_win_small(tier, seed));
     d.extend(dom_unix_small(tier, seed));
     d.extend(strings_b(b"\\/:?*\"<>|\0a", if t { 3 } else { 2 }));
+    // sizes around the magic numbers of the source, small and (oracle only) big
+    d.extend(magic_paths(false, 1024));
+    d.extend(magic_paths(true, 1024));
+    d.extend(big_inputs(false));
+    d.extend(big_inputs(true));
     let tails = strings_b(b"\\/:?*\"<>|\0a.", 2);
     for s in WIN_SEEDS {
         for tl in &tails {
@@ -659,6 +668,8 @@ pub fn c17(ctx: &mut Ctx, tier: &str, seed: u64) {
                 }
             }
         }
+        d.extend(magic_paths(win, 1024));
+        d.extend(big_inputs(win));
         let d = dedup_keep_order(d);
         for s in &d {
             let rp = format!("valid {} {}", e, hex(s));
